@@ -11,6 +11,7 @@ use std::io::Write;
 mod d_cf;
 mod d_entry;
 mod d_pipe;
+mod d_rx;
 mod d_scan;
 mod d_sel;
 
@@ -119,6 +120,7 @@ fn main() {
     "entry" => d_entry::run(&args),
     "scan" => d_scan::run(&args),
     "cf" => d_cf::run(&args),
+    "rx" => d_rx::run(&args),
     x => {
       eprintln!("unknown sub {}", x);
       std::process::exit(2);
